@@ -341,7 +341,17 @@ def slack_rules(ctx, name, convert):
         new_calls = [c for c in s.call_objs if c.item == 'new' and c.path.endswith('Linear>::new')]
         ctx.check(all(len([c for c in w.call_objs if (c.item == 'single_term' and c.path.endswith('Linear>::single_term')) or (c.item == 'new' and c.path.endswith('Linear>::new'))]) == 1 and w.has_call(ADD_RE) for w in allw),
                   R + '/coef/f-plus-slack-term', 'T-CARRY', body.name, 'new function is not `f + (one linear slack term)`', body.site(bi))
-        ctx.check(all(w.has_field(CON, 'function') for w in allw), R + '/coef/keeps-f', 'T-CARRY', body.name, 'new function does not contain the old one', body.site(bi))
+        # the summand that is not the slack term is the constraint's OWN function (clone / ref of constraint.function), not a product of it
+        # (the scaled copy a*f is for the bound and the guards only: f + s/a = 0, not a*f + s/a = 0)
+        scaled = []
+        for b_, o in fw:
+            for x in T.expr_walk(xexpr(body, o)):
+                if x[0] == 'call' and re.search(ADD_RE, x[2]) and len(x[3]) == 2:
+                    for y in x[3]:
+                        if any(z[0] == 'call' and z[1] in ('single_term', 'new') and 'Linear>::' in z[2] for z in T.expr_walk(y)): continue
+                        if any(z[0] == 'call' and MUL_CALL.search(z[2]) for z in T.expr_walk(y)): scaled.append(b_)
+        ctx.check(all(w.has_field(CON, 'function') for w in allw) and not scaled, R + '/coef/keeps-f', 'T-CARRY', body.name,
+                  'new function is built from a scaled copy of the old one (a*f + s/a instead of f + s/a)' if scaled else 'new function does not contain the old one', body.site(bi))
         if not st_calls and new_calls:
             c = new_calls[0]; ts = ctx.S.slice_operand(body, c.args[0])
             idl = (plain_source(body, idop) or set()) if idop else set()
@@ -474,6 +484,15 @@ def limit_target_rule(ctx, R, body, slack_news):
         other = ops[1 - lim[0]]
         if not ctx.S.slice_operand(body, other).has_call(r'impl v1::Function>::evaluate_bound'): continue
         e = T.arith(xexpr(body, other))
+        # "a range ABOVE the limit is rejected": range > limit  ==  limit < range  ==  !(range <= limit); `>=` / `<` would reject the limit itself
+        op = st['rv']['op'] if lim[0] == 1 else {'Gt': 'Lt', 'Lt': 'Gt', 'Ge': 'Le', 'Le': 'Ge'}[st['rv']['op']]
+        if op in ('Ge', 'Lt'):
+            verdicts.append(('bad', bi, 'the slack range is compared with `%s` against max_integer_range: a range equal to the limit is rejected' % op)); continue
+        # the range itself: no constant added to / subtracted from it (e.g. width + 1.0 "number of integers")
+        if e[0] == 'bin' and e[1] in ('Add', 'Sub', 'Mul', 'Div') and any(x[0] == 'const' for x in (e[2], e[3])) and \
+                any(y[0] == 'call' and y[1] in ('width', 'lower', 'upper') and y[2].endswith('bound::Bound::' + y[1]) for y in T.expr_walk(e)) and \
+                not (e[1] == 'Sub' and e[2][0] == 'const' and T.f64_const(e[2][1]) == 0.0):
+            verdicts.append(('bad', bi, 'the quantity compared with max_integer_range is the slack range changed by a constant (%s)' % T.expr_str(e, 4)[:80])); continue
         if e[0] == 'call' and e[1] == 'width' and e[2].endswith('bound::Bound::width') and e[3]:
             site = bound_site(e[3][0])
             verdicts.append(('ok' if site in news else 'bad', bi, 'the limit is applied to the width of `%s`, not of the slack variable\'s bound' % site))
